@@ -24,7 +24,7 @@ def apply_variant(root, tmp, v):
     if v.get("transform"):
         from vlib import transforms
         try:
-            {"ast_unparse": transforms.ast_roundtrip, "alpha_rename": transforms.alpha_rename}[v["transform"]](tmp)
+            transforms.ALL[v["transform"]](tmp)
         except (OSError, SyntaxError):
             return "does-not-compile"
         return "ok"
@@ -99,6 +99,13 @@ def load_variants():
                "note": "every hand-written source file rewritten by ast.unparse (comments gone, layout normalised)"})
     vs.append({"id": "s-global-alpha-rename", "expect": "silent", "props": allp, "transform": "alpha_rename",
                "note": "every local variable of every function renamed"})
+    for tid, note in (("comprehension_statements", "every comprehension used as a statement written as loops"),
+                      ("swap_branches", "every if/else written with the negated test and swapped branches"),
+                      ("none_tests", "== None / != None and is None / is not None exchanged everywhere"),
+                      ("expand_augassign", "every augmented assignment on a name expanded"),
+                      ("flip_comparisons", "every order comparison a<b written b>a"),
+                      ("else_after_return", "statements after an `if ...: return/raise/continue/break` moved into its else branch")):
+        vs.append({"id": "s-global-" + tid.replace("_", "-"), "expect": "silent", "props": allp, "transform": tid, "note": note})
     for mp in sorted(glob.glob(os.path.join(VERIF, "seeded", "*", "meta.json"))):
         m = json.load(open(mp))
         d = os.path.dirname(mp)
